@@ -456,6 +456,16 @@ PROPS = {
                              "well-formedness by construction follows the core grammar of the RFC each format names; only instances inside that core are generated",
                              "scheduling points are the rewritten sync operations and one yield before each call; data races between points are left to the race detector, "
                              "which sees only the program's own happens-before edges (gates are raw syscalls)"]),
+    "C13": dict(engine="rt", pkg="./engines/rt", race=False, quick_runs=20000, thorough_runs=2000000, quick_budget=120, thorough_budget=2400,
+                level="exploration",
+                rule="one run = one seeded type graph (1-4 user/result types that may reference each other, depth <= 5, objects, arrays, maps, unions, 0-4 Meta keys per attribute incl. "
+                     "several struct:field:* keys, validations): Hash under all 8 flag combinations and Dup evaluated under map orders sorted, reverse and 6 seeded permutations (MapOrder "
+                     "seam on every range over a map in goa) must give identical answers; a history of 1-6 mutations applied to Dup's result (set type, add/append Meta, change validation, "
+                     "add attribute, rename user type, add union alternative) must leave a deep snapshot and the hashes of the original unchanged, likewise DupAtt; workload-only oracle "
+                     "(no simulator leverage, labelled so in DESIGN.md): the same graph declared in another attribute/alternative order hashes equal, one changed leaf hashes different; "
+                     "distinct = digest of the graph's hashes",
+                assumptions=["partly claimed: the hash<=>equality clause is input-only and rides along on the graphs that exist for the map-order and copy/mutate clauses",
+                             "graphs are built directly from expr types (the DSL is not involved)", "a leaf that is only reachable behind a recursive reference is not required to change the hash"]),
     "C15": dict(engine="rt", pkg="./engines/rt", race=True, quick_runs=4000, thorough_runs=400000, quick_budget=120, thorough_budget=2400,
                 level="exploration",
                 rule="one run = 12 (quick) / 40 (thorough) encoder<->decoder exchanges over SimNet (1-byte..whole chunking, chunked/length framing, header-case noise); "
